@@ -651,6 +651,13 @@ theorem memberOf_spec (e : Bytes × Bytes) :
   simp only [g4, urlEncode_spec, splitMeta_eq]
   simp
 
+/-- **what `ToHeader` writes**: the members `pct(key)=pct(value part)metadata`, joined by `,` — the metadata verbatim -/
+theorem toHeader_spec (es : Entries) :
+    toHeader es = joinMembers (es.map fun e => pctEncode e.1 ++ 61 :: (pctEncode (metaSplit e.2).1 ++ (metaSplit e.2).2)) := by
+  unfold toHeader
+  congr 1
+  exact List.map_congr_left (fun e _ => memberOf_spec e)
+
 /-- **one member round-trips**: the written member has no `,`, is not empty, is untouched by trimming, and
     contributes exactly the entry it was written from -/
 theorem member_roundtrip (e : Bytes × Bytes) (h : RoundTrippableEntry e) :
